@@ -107,4 +107,16 @@ def dirNameN : Nat → Str → Str
 than characters, so `p.length` steps reach the root) -/
 def ancestors (p : Str) : List Str := (List.range p.length).map fun j => dirNameN (j + 1) p
 
+/-- executable form of the hypotheses of the relocation theorems (`Relocatable` in `Proofs/C25.lean`,
+`relocatable_of_check`): distinct locations; symlinks at normalised locations, none recorded below another one;
+following as many symlinks as the archive has settles every location; different entries resolve to different places -/
+def relocatableB (raw : List Obj) : Bool :=
+  let syms := symsOf raw
+  let res := fun (e : Obj) => resolveDir syms.length syms e.loc
+  decide (raw.map Obj.loc).Nodup
+    && syms.all (fun s => cnPrefix s.loc == s.loc ++ ['/'])
+    && syms.all (fun a => syms.all fun b => !isChild a.loc b.loc)
+    && raw.all (fun e => (stepLoc syms (res e)).isNone)
+    && raw.all (fun a => raw.all fun b => !(res a == res b) || a == b)
+
 end Pkgcore.C25.Spec
